@@ -84,7 +84,7 @@ Path = namedtuple('Path', 'events facts store ret exit trace entry_fn')
 
 
 class Engine:
-    def __init__(self, facts, *, max_depth=6, max_visits=3, max_paths=20000,
+    def __init__(self, facts, *, max_depth=9, max_visits=3, max_paths=20000,
                  inline_filter=None, fanout_traits=(), inline_queue_helpers=False):
         self.F = facts
         self.max_depth = max_depth
@@ -944,6 +944,16 @@ class Engine:
                 return self._opt_fork(st, v, lambda s: some(('pin', ('ref', loc + (('dc', 'Some'), '0')))))
             return None
 
+        # ---- checked arithmetic on unsigned integers: checked_sub(a, b) is Some(a - b) iff a >= b
+        if name == 'checked_sub' and len(args) == 2 and 'num' in path:
+            a, b = args
+            outs = []
+            st_none = st.copy()
+            if self.assume(st_none, ('bin', 'Lt', a, b), 1):
+                outs.append((st_none, NONE))
+            if self.assume(st, ('bin', 'Lt', a, b), 0):
+                outs.append((st, some(('bin', 'Sub', a, b))))
+            return outs
         # ---- an Option used as a one-element iterator: opt.into_iter().for_each(f)
         if name == 'into_iter' and len(args) == 1 and 'option::Option' in path + (ci.get('gargs_str') or ''):
             return [(st, ('optiter', args[0]))]
@@ -1015,6 +1025,35 @@ class Engine:
                         for st3, rv in self.call_closure(st2, args[2], [inner]):
                             outs.append((st3, rv))
                 return outs
+            if name in ('get_or_insert_with', 'get_or_insert', 'insert'):
+                loc = self.deref(args[0])
+                v = self.read(st, loc)
+                outs = []
+                if name == 'insert':
+                    ev('replace', loc=loc, old=v, val=args[1])
+                    self._write_ev(st, fn, frame, loc, some(args[1]), t['ln'])
+                    return [(st, ('ref', loc + (('dc', 'Some'), '0')))]
+                for st2, inner in self._opt_split(st, v):
+                    if inner is not None:
+                        outs.append((st2, ('ref', loc + (('dc', 'Some'), '0'))))
+                    elif name == 'get_or_insert':
+                        self._write_ev(st2, fn, frame, loc, some(args[1]), t['ln'])
+                        outs.append((st2, ('ref', loc + (('dc', 'Some'), '0'))))
+                    else:
+                        for st3, rv in self.call_closure(st2, args[1], []):
+                            if rv is PANIC:
+                                outs.append((st3, PANIC))
+                                continue
+                            st3.events.append({'k': 'replace', 'loc': loc, 'old': NONE, 'val': rv, 'fn': fn['path'],
+                                               'ln': t['ln'], 'frame': frame, 'callee': path, 'name': name,
+                                               'eid': st3.eid()})
+                            self._write_ev(st3, fn, frame, loc, some(rv), t['ln'])
+                            outs.append((st3, ('ref', loc + (('dc', 'Some'), '0'))))
+                return outs
+            if name in ('as_deref', 'as_deref_mut'):
+                loc = self.deref(args[0])
+                v = self.read(st, loc)
+                return self._opt_fork(st, v, lambda s: some(('ref', loc + (('dc', 'Some'), '0'))))
             if name == 'and_then':
                 outs = []
                 for st2, inner in self._opt_split(st, args[0]):
